@@ -4,6 +4,7 @@ CONSTANTS
   Combos <- Quick2Combos
   ClsSet <- Classes
   OrderSet <- BothOrders
+  PreSet <- PlainPre
 INIT Init
 NEXT Next
 INVARIANT Export
